@@ -17,7 +17,7 @@ META = {
                   "typelib.py.inspection.unwrap", "typelib.py.refs.forwardref"],
     "bounds": {
         "quick": "key family of one base type x 6 stored forms + 5 two-layer lookup keys (NewType over alias / over string alias / of NewType, alias of NewType, Final of NewType) "
-                 "(+ a second family for non-interference and a stored reference to a short-name decoy); one top-level base family (seed-rotated of 3) in full, and - every key by subscription, three by get - the nested-class family (dotted qualified name), a bare user Generic, classes of a module not registered in sys.modules; pre-state: 6 presence bits, up to 4 "
+                 "(+ a second family for non-interference and a stored reference to a short-name decoy); one top-level base family (seed-rotated of 3) in full, and - every key by subscription, three by get - the nested-class family (dotted qualified name), a bare user Generic, classes of a module not registered in sys.modules, a Literal[...] base; pre-state: 6 presence bits, up to 4 "
                  "alias-memo bits (choice variables, realised by the solver; the step then runs natively), distinct stored tokens; op1 in {[], get(default), in(stored keys)} x 6 keys, "
                  "then op2 = [] / get with a symbolic key; all three base families; 20 s per condition",
         "thorough": "same with both op orders and the second family at full size; 60 s per condition",
@@ -29,7 +29,7 @@ META = {
 MISSING = "<missing>"
 
 
-def model_lookup(stored: dict, i: int):
+def model_lookup(stored: dict, i: int, fi: int = 0):
     """Reference model over family indexes: stored maps index -> value."""
     if i in stored:
         return stored[i]
@@ -38,7 +38,7 @@ def model_lookup(stored: dict, i: int):
     u = K.UNWRAPS_TO[i]
     if u is not None and u in stored:
         return stored[u]
-    r = K.NAMED_BY[i]
+    r = K.NAMED_BY_OVERRIDE.get(fi, {}).get(i, K.NAMED_BY[i]) if i in K.NAMED_BY_OVERRIDE.get(fi, {}) else K.NAMED_BY[i]
     if r is not None and r in stored:
         return stored[r]
     return MISSING
@@ -89,7 +89,7 @@ def make(fi, op1, k1, use_get2, timeout):
         c[other[0]] = 500
         c[K.DECOY_REF] = 600  # names the top-level class that shares the nested class's short name
         key1 = fam[k1]
-        exp1 = model_lookup(stored, k1)
+        exp1 = model_lookup(stored, k1, fi)
         if op1 == 0:
             ok, r = attempt(lambda: c[key1])
             got1 = r if ok else (MISSING if isinstance(r, KeyError) else ("ERR", type(r).__name__))
@@ -110,7 +110,7 @@ def make(fi, op1, k1, use_get2, timeout):
         # second lookup: any key of the family, by [] or get
         k2 = ch.pick(nk2)
         key2 = fam[k2]
-        exp2 = model_lookup(stored, k2)
+        exp2 = model_lookup(stored, k2, fi)
         if use_get2:
             ok, r = attempt(lambda: c.get(key2, dflt))
             got2 = r if ok else ("ERR", type(r).__name__)
@@ -134,7 +134,7 @@ def make(fi, op1, k1, use_get2, timeout):
         for i in range(11):
             if i not in stored and fam[i] in c:
                 ok, r = attempt(dict.__getitem__, c, fam[i])
-                if not ok or not _eq(r, model_lookup(stored, i)):
+                if not ok or not _eq(r, model_lookup(stored, i, fi)):
                     return ("memo_invariant_broken", f"form{k1}", _d(stored, i, r))
         return None
 
@@ -154,8 +154,8 @@ def conditions(tier, seed):
     to = 40.0 if tier == "quick" else 90.0
     out = []
     # families: 0-2 top-level classes, 3 a nested class (dotted qualified name) + short-name decoy, 4 a user Generic used
-    # bare, 5 classes of a module that is not registered in sys.modules
-    full = (0, 1, 2, 3, 4, 5) if tier != "quick" else (seed % 3,)
+    # bare, 5 classes of a module that is not registered in sys.modules, 6 a Literal[...] base (not named by any reference)
+    full = (0, 1, 2, 3, 4, 5, 6) if tier != "quick" else (seed % 3,)
     for fi in full:
         for op1 in (0, 1, 2):
             for k1 in range(6):
@@ -167,7 +167,7 @@ def conditions(tier, seed):
                 if tier != "quick":
                     out.append(make(fi, op1, k1, True, to))
     if tier == "quick":  # the special families: every key by subscription, three keys by get
-        for fi in (3, 4, 5):
+        for fi in (3, 4, 5, 6):
             for k1 in range(11):
                 out.append(make(fi, 0, k1, k1 % 2 == 1, to))
             for k1 in (0, 3, 7):
